@@ -1,6 +1,7 @@
 import EupsModel.Lemmas.FsEff
 import EupsModel.Lemmas.FsTab
 import EupsModel.Lemmas.FsEffForms
+import EupsModel.Lemmas.FsCache
 /-! C08 — an interrupted update never corrupts or loses existing declarations.  Property theorems only
 (model: `Model/FsEff.lean`, helper lemmas: `Lemmas/FsEff.lean`).
 
@@ -271,5 +272,52 @@ theorem C08_table_gap_repaired :
     let c : Cmd2 := .declareTab 0 0 0 none 2
     ∀ k, k ≤ (effects2 {} db c).length →
       readTab (crashAt2 {} db c k) ⟨0, 0, 0⟩ = .content 1 ∨ readTab (crashAt2 {} db c k) ⟨0, 0, 0⟩ = .content 2 := by decide
+
+/-! ## The product cache (`Model/FsCache.lean`)
+
+After every database operation of a command `Eups` saves the product cache: one `utils.AtomicFile` per flavor —
+temporary file, `pickle.dump` into the **buffered** file object (the data reaches the file only when it is flushed at
+`close`; a killed process loses what is buffered), `os.fsync`, close, `os.rename`.  `effects3` = the record effects of
+the command's database operations with the cache saves in between (and the interned table file last); `crashAt3` = the
+state (records, table files, cache files) a kill before effect `k` leaves.  `flavors` = the cache files the command's
+`Eups` object holds (`ProductStack.getFlavors()`), part of the state it starts in. -/
+
+/-- The records at every crash point of the extended effect list are the records at a crash point of the plain model:
+frame, commit points, old-or-new, never-garbled, reader-total and the chain-record forms hold verbatim with the cache
+saves in between. -/
+theorem C08_cache_records (cfg : Cfg3) (flavors : List Id) (db : Db3) (c : Cmd2) (k : Nat) :
+    ∃ k', (crashAt3 cfg flavors db c k).fs = crashAt { atomic := cfg.atomic } db.fs c.onRecords k' := by
+  refine ⟨(recPart ((effects3 cfg flavors db c).take k)).length, ?_⟩
+  unfold crashAt3 crashAt
+  rw [applyAll3_fs]
+  have h := recPart_take (effects3 cfg flavors db c) k
+  rw [recPart_effects3] at h
+  exact congrArg (applyAll db.fs) h
+
+/-- **The cache files are complete at every crash point** (full; the order in the tree: close, then rename): if no
+cache file in place is empty when the command starts, none is at any crash point of any command — for every list of
+flavors whose cache files are saved, the last one included. -/
+theorem C08_cache_complete (atomic : Bool) (flavors : List Id) (db : Db3) (c : Cmd2) (k : Nat)
+    (h : ∀ f, cget db.cache (.main f) ≠ some .empty) :
+    ∀ f, cget (crashAt3 { atomic := atomic, renameFirst := false } flavors db c k).cache (.main f) ≠ some .empty := by
+  unfold crashAt3
+  rw [applyAll3_cache]
+  have hk := cachePart_take (effects3 { atomic := atomic, renameFirst := false } flavors db c) k
+  have := safe_cachePart_effects3 atomic flavors db c db.cache h
+    (cachePart ((effects3 { atomic := atomic, renameFirst := false } flavors db c).take k)).length
+  rw [← hk] at this
+  exact this
+
+/-- Buffered writes matter: with *rename, then close* (not the order in the tree) a kill between the two leaves an
+empty cache file in place — here the file of the LAST flavor saved (`2` = generic), with every other file newer and
+complete; the model with the order of the tree has the old complete file at the same crash point. -/
+theorem C08_cache_rename_before_close_witness :
+    let db : Db3 := { fs := { dirs := [0], files := [(.main (.vfile 0 0), .complete (.ver [⟨0, false⟩]))] },
+                      tabs := [], cache := [(.main 0, .full 0), (.main 2, .full 0)] }
+    let c : Cmd2 := .plain (.undeclare 0 0 0)
+    let bad : Cfg3 := { renameFirst := true }
+    cget (crashAt3 bad [0, 2] db c 11).cache (.main 2) = some .empty ∧
+    cget (crashAt3 {} [0, 2] db c 11).cache (.main 2) = some (.full 0) ∧
+    cget (crashAt3 {} [0, 2] db c 12).cache (.main 2) = some (.full 1) := by decide
 
 end EupsModel.C08
